@@ -359,6 +359,26 @@ def c06(ctx):
                 meta.append({"family": f, "case": ci, "variant": v, "bytes": data.decode("latin-1"),
                              "digests": [x[:600] for x in list(digs.keys())[:3]], "kinds": _kinds(digs), "exc": ref_ev["exc"],
                              "cuts": "seg_set", "nseg": len(ids)})
+    # the application does not read the bodies (the parser has to get past them by itself before the next request): the
+    # requests obtained must not depend on where the reads end inside an unread body either
+    for f in ("pipeline", "chunks"):
+        cases = emit_cases(f)
+        cases = rng.sample(cases, min(len(cases), 40 if ctx.quick else 400))
+        for ci, case in enumerate(cases):
+            v = rng.randrange(cz.num_variants(case["ms"]))
+            data = bytes(cz.concretize(case["ms"], v, case["cut"]).data)
+            n = len(data)
+            digs, ev = {}, []
+            segsets = [[], list(range(1, n))] + [[i] for i in range(1, n)] + [rand_cuts(rng, n) for _ in range(6)]
+            for si, cuts in enumerate(segsets):
+                obs = drv.run(data, cuts, mode="skip", source="sock" if si % 3 == 2 else "iter")
+                nruns += 1
+                d = json.dumps(drv.digest(obs), sort_keys=True)
+                ev.append({"e": "seg", "dig": digs.setdefault(d, len(digs) + 1)})
+            traces.append({"ms": case["ms"], "cut": case["cut"], "mode": "skip", "ev": ev})
+            meta.append({"family": f, "case": ci, "variant": v, "bytes": data.decode("latin-1"), "shape": "app-skips-bodies",
+                         "digests": [x[:600] for x in list(digs.keys())[:3]], "kinds": _kinds(digs), "exc": None,
+                         "cuts": "seg_set", "nseg": len(segsets)})
     # the same under non-default limit settings (0 = "unlimited" / "use the hard maximum", and small limits): whatever
     # the parser decides, it decides the same for every segmentation
     for cfgkw in ({"limit_request_fields": 0}, {"limit_request_field_size": 0}, {"limit_request_line": 0},
@@ -440,13 +460,14 @@ def c06(ctx):
             for kind in ("gthread", "async"):
                 digs, ev = {}, []
                 segsets = [[], list(range(1, len(data)))] + [rand_cuts(rng, len(data)) for _ in range(4 if ctx.quick else 12)]
+                wmode = "read" if (ci % 2 == 0 or f == "trunc") else "skip"       # (half of the cases: the application ignores its input)
                 for cuts in segsets:
-                    wev, info, c = worker_observe(case, v, cuts, kind, "read")
+                    wev, info, c = worker_observe(case, v, cuts, kind, wmode)
                     d = json.dumps([wev, info["escaped"]], sort_keys=True)
                     ev.append({"e": "seg", "dig": digs.setdefault(d, len(digs) + 1)})
                     nw += 1
                 traces.append({"ms": case["ms"], "cut": case["cut"], "mode": "read", "ev": ev})
-                meta.append({"family": f, "case": ci, "variant": v, "bytes": data.decode("latin-1"), "shape": "worker:" + kind,
+                meta.append({"family": f, "case": ci, "variant": v, "bytes": data.decode("latin-1"), "shape": "worker:" + kind + ("" if wmode == "read" else ",app-skips-bodies"),
                              "digests": [x[:600] for x in list(digs.keys())[:3]], "kinds": ["%d observations" % len(digs)],
                              "exc": None, "cuts": "seg_set", "nseg": len(segsets)})
     ctx.coverage["worker_level_runs"] = nw
